@@ -14,7 +14,11 @@ def build(kind, s):
     try:
         if kind == "version": return Version(s)
         if kind == "specifier": return Specifier(s)
-        if kind == "set": return SpecifierSet(s)
+        if kind == "set":
+            if s.startswith("AND:"):                                   # the other construction route: a & b
+                a, _, c = s[4:].partition("|")
+                return SpecifierSet(a) & SpecifierSet(c)
+            return SpecifierSet(s)
         if kind == "marker":
             if s.startswith("REQ:"): return Requirement("x; " + s[4:]).marker      # the other construction route
             return Marker(s)
